@@ -810,3 +810,61 @@ Example C01_partial_failure_premises_satisfiable :
   Refresh.fget 1 (Refresh.r_files PipelineRefresh.RX.st1) = Some PipelineRefresh.RX.t_ax /\
   Refresh.e_block (Refresh.r_engine PipelineRefresh.RX.st1) = [(1, PipelineRefresh.RX.t_ax); (2, PipelineRefresh.RX.t_b)].
 Proof. exact PipelineRefresh.partial_failure_premises_satisfiable. Qed.
+
+(** * Round 7: the global filtering switch is a per-request setting, not a
+    condition of building the engines (Model/FilterSwitch.v) *)
+From AGH Require Import Model.FilterSwitch Proofs.FilterSwitch.
+
+(** For the queue of rebuilds the switch does not exist: a filtering/config
+    call is a handler call that changes no list and asks for a rebuild. *)
+Theorem C01_switch_transparent_to_queue :
+  forall hs g, g_q (grun gate_as_written g hs) = hrun (g_q g) (map erase hs).
+Proof. exact switch_transparent_to_queue. Qed.
+Print Assumptions C01_switch_transparent_to_queue.
+
+(** Every history of handler calls, filtering/config calls switching the
+    global flag either way, loop steps and synchronous rebuilds, from a server
+    started with the flag on or off: once the queue is served a query is
+    answered by the rules of the LATEST configuration, with the flag as last
+    set as the global default (which a client's own settings override). *)
+Theorem C01_engine_rebuilt_regardless_of_global_switch :
+  forall sb par ss srt on st hs c up q,
+  let g := grun gate_as_written (ginit gate_as_written on st) hs in
+  ask_q sb par ss srt (pquiesce (g_q g)) (cfg_filt c (g_on g)) up q
+  = ask sb par ss srt (q_conf (g_q g)) (cfg_filt c (g_on g)) up q.
+Proof. exact engine_rebuilt_regardless_of_global_switch. Qed.
+Print Assumptions C01_engine_rebuilt_regardless_of_global_switch.
+
+Theorem C01_own_filtering_client_blocked_by_latest_rules :
+  forall sb par ss srt on st hs c up q,
+  let g := grun gate_as_written (ginit gate_as_written on st) hs in
+  let c' := cfg_filt c (g_on g) in
+  blocked_by_spec (match_request (allow_rules (q_conf (g_q g)))) (match_request (block_rules (q_conf (g_q g)))) srt c' q ->
+  let o := ask_q sb par ss srt (pquiesce (g_q g)) c' up q in
+  o_calls o = [] /\
+  r_filtered (o_result o) = true /\ rule_reason (r_reason (o_result o)) /\
+  o_resp o = Some (synthetic c' (q_name q) (q_qtype q) (ips_from_rules (o_result o))) /\
+  o_qname o = q_name q.
+Proof. exact own_filtering_client_blocked_by_latest_rules. Qed.
+Print Assumptions C01_own_filtering_client_blocked_by_latest_rules.
+
+(** The seeded early return of enableFiltersLocked while the flag is off
+    (C01-N): switched off, set_rules, loop: the engines lack the new rule;
+    started with the flag off: the engines hold nothing. *)
+Theorem C01_rebuild_only_when_on_refuted :
+  (exists hs, let g := grun gate_only_when_on (ginit gate_only_when_on true sw_state) hs in
+     q_engine (pquiesce (g_q g)) <> ptake (q_conf (g_q g)) /\
+     let g' := grun gate_as_written (ginit gate_as_written true sw_state) hs in
+     q_engine (pquiesce (g_q g')) = ptake (q_conf (g_q g'))) /\
+  q_engine (pquiesce (g_q (ginit gate_only_when_on false sw_state))) <> ptake sw_state.
+Proof. exact rebuild_only_when_on_refuted. Qed.
+Print Assumptions C01_rebuild_only_when_on_refuted.
+
+Example C01_switch_premises_satisfiable :
+  forall m,
+  let g := grun gate_as_written (ginit gate_as_written true (mkLState [] [] []))
+             [GConfig false; GOp (HHandle (QRules ex_block_rules)); GOp HLoop] in
+  g_on g = false /\ c_filtering (cfg_filt (ex_cfg m) (g_on g)) = false /\
+  blocked_by_spec (match_request (allow_rules (q_conf (g_q g)))) (match_request (block_rules (q_conf (g_q g))))
+    Rewrites.isort (cfg_filt (ex_cfg m) (g_on g)) sw_query.
+Proof. exact switch_premises_satisfiable. Qed.
